@@ -300,6 +300,53 @@ fn monitor(rep: &mut Report, history: u64, st: &Step) {
     }
 }
 
+/// Credentials whose PRF secrets were not made by this library's make_credential (imported, written by
+/// another implementation): HMAC-SHA-256 takes a key of any length, and "keyed with one of the two
+/// secrets stored with the credential" means the whole stored secret.
+fn imported_secrets(rep: &mut Report, seed: u64, idx: u64) {
+    use crate::{exec::block_on, util::{descriptor, ga_request, seeded_passkey, Rig}};
+    use passkey_types::ctap2::{extensions::{AuthenticatorPrfInputs, AuthenticatorPrfValues}, get_assertion};
+    let mut rng = Rng::derive(seed, "c09imp", idx);
+    rep.eval();
+    let l_uv = *rng.pick(&[16usize, 31, 32, 33, 48, 64, 65, 100]);
+    let l_no = *rng.pick(&[0usize, 16, 32, 33, 64, 100]);
+    let uv_secret = rng.bytes(l_uv);
+    let no_uv_secret = if l_no == 0 { None } else { Some(rng.bytes(l_no)) };
+    let verified = rng.bool();
+    let rig = Rig::new(Disc::Full, UvOutcome::Check { presence: true, verification: verified }, Some(true));
+    let id = rng.bytes(20);
+    let (pk, _, _) = seeded_passkey(&mut rng, "example.com", &id, Some(b"u"), None, Some((uv_secret.clone(), no_uv_secret.clone())));
+    rig.store.insert_raw(pk);
+    let mut auth = rig.auth(AuthCfg { hmac: HmacCfg::WithoutUv, ..Default::default() });
+    let salt1 = rng.arr32();
+    let salt2 = rng.bool().then(|| rng.arr32());
+    let case = json!({"index": idx, "level": "ctap", "part": "imported credential", "prf_secret_lengths": [l_uv, l_no], "user_verified": verified, "second_salt": salt2.is_some()});
+    rep.nontrivial(fnv_str(&format!("imp|{l_uv}|{l_no}|{verified}|{}", salt2.is_some())));
+    let req = ga_request("example.com", &[2u8; 32], Some(vec![descriptor(&id)]), Some(get_assertion::ExtensionInputs { hmac_secret: None, prf: Some(AuthenticatorPrfInputs { eval: Some(AuthenticatorPrfValues { first: salt1, second: salt2 }), eval_by_credential: None }) }), true, verified);
+    let secret = if verified { Some(uv_secret) } else { no_uv_secret };
+    match block_on(auth.get_assertion(req)) {
+        Ok(resp) => {
+            let out = resp.unsigned_extension_outputs.as_ref().and_then(|u| u.prf.as_ref()).map(|p| &p.results);
+            match (out, &secret) {
+                (Some(r), Some(s)) => {
+                    rep.count("imported_secret_results_compared");
+                    if r.first != oracle::hmac_sha256(s, &salt1) || r.second != salt2.map(|x| oracle::hmac_sha256(s, &x)) {
+                        rep.violate("ctap: assertion PRF result is not HMAC-SHA-256(the stored secret, salt) for an imported credential", format!("stored secret of {} bytes", s.len()), case);
+                    }
+                }
+                (Some(_), None) => rep.violate("ctap: PRF result although the credential holds no secret admissible for this ceremony", String::new(), case),
+                (None, _) => rep.count("imported_secret_no_output"),
+            }
+        }
+        Err(e) => {
+            rep.count("imported_secret_refused");
+            if secret.is_some() {
+                rep.violate("ctap: PRF evaluation refused for an imported credential that holds the admissible secret", format!("status {:#x}, secret of {} bytes", crate::util::status_byte_ref(&e), secret.as_ref().map_or(0, |s| s.len())), case);
+            }
+        }
+    }
+}
+
 /// CTAP2-level workload: salts are given directly (no hashing), `hmac-secret` can be requested
 /// explicitly, per-credential salts are keyed by raw credential ids.
 fn ctap_level(rep: &mut Report, seed: u64, idx: u64) {
@@ -497,7 +544,12 @@ fn gen_history(rng: &mut Rng) -> Vec<Op> {
         let by_cred = if rng.chance(1, 2) {
             let mut v = Vec::new();
             for _ in 0..rng.range(1, 2) {
-                let key = match rng.below(10) {
+                let key = match rng.below(12) {
+                    // another accepted spelling of a held id (alone in the map, so that no two keys name one id)
+                    10 | 11 if v.is_empty() => {
+                        v.push((KeyRef::Spelled(rng.below(4), rng.range(1, 3) as u8), gen_eval(rng, hashed && !both, true)));
+                        break;
+                    }
                     0 => KeyRef::Raw(String::new()),
                     1 => KeyRef::Raw("!!!!".into()),
                     2 => KeyRef::Raw(oracle::b64url(&rng.bytes(16))),
@@ -575,6 +627,11 @@ pub fn run(args: &Args) -> Report {
         if only.map_or(true, |o| o == idx) {
             if let Err((sig, d)) = catch(|| ctap_level(&mut rep, args.seed, idx)) {
                 rep.violate(&format!("ctap ceremony {sig}"), d, json!({"index": idx}));
+            }
+            if k % 4 == 0 {
+                if let Err((sig, d)) = catch(|| imported_secrets(&mut rep, args.seed, idx)) {
+                    rep.violate(&format!("ctap ceremony with an imported credential {sig}"), d, json!({"index": idx}));
+                }
             }
         }
     }
